@@ -830,6 +830,7 @@ class C10(SimCheck):
     assumptions = ["all pairs in range (C09 covers the range gate)", "random.random() is replaced by a recording source; its "
                    "uniformity on [0,1) is assumed (T3), C10_frequency gives the measure of the losing draws"]
     force_cfg = {"hasComm": True, "hasTimer": True, "defaultRange": fbits(1.0e6)}
+    unlimited_share = 0.15       # scenarios whose medium has an unlimited range (float("inf")): loss applies all the same
     profile = {"w": {"setTimer": 3, "cancelTimer": 0.4, "send": 4, "broadcast": 4, "goto": 0.4, "setSpeed": 0.1,
                      "setRange": 0, "gotoGeo": 0}, "pBadDst": 0.08, "maxReq": 4, "budget": 70}
     quick_n = 330
@@ -842,6 +843,8 @@ class C10(SimCheck):
             cfg["initPos"] = [[fbits(c) for c in simgen.lattice(r)] for _ in range(cfg["nNodes"])]
         rate = r.choice([0.25, 0.5, 0.75, 0.1, 0.9, 0.3, 0.5, 0.0, 1.0, round(r.random(), 3)])
         cfg["failRate"] = fbits(rate)
+        if random.Random(stable_hash("unlimited", scn.get("seed", 0))).random() < self.unlimited_share:
+            cfg["defaultRange"] = fbits(float("inf"))
         if cfg["hasMob"] and cfg["duration"] is None:
             cfg["duration"] = 6144
         if cfg["maxIter"] is not None and r.random() < 0.7:
